@@ -1,20 +1,33 @@
 #!/bin/bash
 # tools/try_seeded.sh <dir-with-patch.diff> [check ids...]
-# Applies the seeded change to /repo, runs the given checks (default: the property in meta.json),
-# prints their verdict lines, and ALWAYS restores /repo afterwards.
+# Runs the given checks (default: the property in meta.json) against the seeded change.
+# Default mode: a scratch worktree of /repo's HEAD with the patch applied, passed to the harness
+# through DISCOPY_REPO (so /repo itself — which background jobs may be using — is not disturbed).
+# INPLACE=1: apply to /repo itself (git apply), run, and always restore (git checkout -- .).
 set -u
 d=$(realpath "$1"); shift
 ids="$@"
 if [ -z "$ids" ]; then ids=$(python3 -c "import json,sys; print(json.load(open('$d/meta.json'))['property'])"); fi
-cd /repo
-if ! git diff --quiet; then echo "REPO DIRTY, abort"; exit 2; fi
-if ! git apply --check "$d/patch.diff" 2>/dev/null; then echo "PATCH DOES NOT APPLY: $d"; exit 2; fi
-git apply "$d/patch.diff"
-trap 'git -C /repo checkout -- . ' EXIT
+if [ "${INPLACE:-0}" = "1" ]; then
+  cd /repo
+  if ! git diff --quiet; then echo "REPO DIRTY, abort"; exit 2; fi
+  if ! git apply --check "$d/patch.diff" 2>/dev/null; then echo "PATCH DOES NOT APPLY: $d"; exit 2; fi
+  git apply "$d/patch.diff"
+  trap 'git -C /repo checkout -- . ' EXIT
+  export DISCOPY_REPO=/repo
+else
+  wt=/tmp/seeded-wt-$$
+  git -C /repo worktree add -q --detach $wt HEAD
+  trap "git -C /repo worktree remove --force $wt" EXIT
+  if ! git -C $wt apply --check "$d/patch.diff" 2>/dev/null; then echo "PATCH DOES NOT APPLY: $d"; exit 2; fi
+  git -C $wt apply "$d/patch.diff"
+  export DISCOPY_REPO=$wt
+fi
 cd /verif
+export VERIF_NO_EVIDENCE=1
 for id in $ids; do
   for seed in ${SEEDS:-0}; do
-    out=$(VERIF_SEED=$seed timeout 900 ./check $id --tier ${TIER:-quick} 2>&1 | grep -E "^(OK|VIOLATION|HARNESS-ERROR)" | head -3)
+    out=$(VERIF_SEED=$seed timeout 1200 ./check $id --tier ${TIER:-quick} 2>&1 | grep -E "^(OK|VIOLATION|HARNESS-ERROR)" | head -3)
     echo "[$id seed=$seed] $out"
   done
 done
